@@ -412,6 +412,20 @@ def nan_mapping(ctx: Ctx):
             "a value the response marks unavailable ({'?': code}) surfaces as NaN (all numeric measure classes agree)",
         )
         ctx.count("numeric-measure _flat_values with dict->NaN")
+        # the data of a numeric-array measure without grouping is NESTED ("data": [[2.5, 25]]) - which is why the result is
+        # flattened.  A marker replaced only at the TOP level of "data" and a flatten() afterwards contradict each other:
+        # a marker inside the inner list reaches np.array(..., dtype=float64) and raises TypeError.  (The median flattens first.)
+        if ci.name in ("_MeanMeasure", "_SumMeasure", "_StdDevMeasure", "_MediansMeasure") and has_map:
+            verdict, seen = None, ""
+            for n in ast.walk(body):
+                if isinstance(n, (ast.GeneratorExp, ast.ListComp)) and any(isinstance(x, ast.Call) and u(x.func) == "isinstance" and len(x.args) == 2 and u(x.args[1]) == "dict" for x in ast.walk(n.elt)):
+                    it = n.generators[0].iter
+                    seen = u(it)[:80]
+                    flat_first = any(isinstance(c, ast.Call) and isinstance(c.func, ast.Attribute) and c.func.attr in ("flatten", "ravel") for c in ast.walk(it)) or any(isinstance(c, ast.Call) and u(c.func) in ("np.ravel", "itertools.chain.from_iterable", "chain.from_iterable") for c in ast.walk(it))
+                    direct = isinstance(it, ast.Subscript) and isinstance(it.slice, ast.Constant) and it.slice.value == "data"
+                    verdict = True if flat_first else (False if direct else None)
+            ctx.ob("nan-mapping.nested", where, f"markers replaced over {seen}", "markers replaced over the FLATTENED data (a numeric-array measure nests its values)", verdict,
+                   "a subvariable without a value inside the nested data ([[2.5, {'?': -1}]]) raises TypeError instead of surfacing as NaN")
     ctx.require_min("numeric-measure _flat_values with dict->NaN", 7)
 
 
